@@ -713,6 +713,14 @@ func (s *Sim) poolInOrder() ([]*MTx, bool) {
 // pooled transaction was first seen in the pool.
 func (s *Sim) minableNow() bool {
 	snap := s.n.Chain.BestSnapshot()
+	if snap.MedianTime.Unix()+1 > s.adjNow()+7200 {
+		// no block at all can be mined at present: the earliest time the
+		// chain allows is more than two hours ahead of the adjusted clock
+		// (the clock was stepped back by skewed peers under a chain whose
+		// timestamps run ahead)
+		s.r.Probe("no-block-possible-now:median-time-two-hours-ahead-of-the-clock")
+		return false
+	}
 	for _, h := range s.n.Pool.TxHashes() {
 		if sh, ok := s.ps.seenHeight[*h]; ok && (snap.Height < sh || snap.MedianTime.Unix() < s.ps.seenMTP[*h]) {
 			return false
